@@ -44,6 +44,8 @@ def make_case(seed: int, tier: str, prop: str, opts=None) -> Dict[str, Any]:
 
 def fault_points(sc, hist) -> List[Dict[str, Any]]:
     typ = {s["sid"]: s["type"] for s in sc["sims"]}
+    tr = {s["sid"]: s.get("transport", "gated") for s in sc["sims"]}
+    last_get = {}
     pts = []
     for r in hist:
         if r[0] != "begin" or r[1] not in ("step", "get_data"):
@@ -60,6 +62,17 @@ def fault_points(sc, hist) -> List[Dict[str, Any]]:
             for k in DATA_KINDS:
                 pts.append({"sid": sid, "req": n, "phase": "reply", "kind": "bad_reply",
                             "func": "get_data", "value": {"what": k}})
+            # an in-process simulator that re-uses its reply dict and forgets to refresh 'time': the
+            # stale value is earlier than the step if the previous reply belonged to an earlier time
+            prev = last_get.get(sid)
+            # (cache off: with the cache on mosaik keeps a reference to the reply, and a simulator that
+            # re-fills the same dict would also rewrite what is cached for earlier times - another matter)
+            if tr[sid] in ("gated", "stock") and prev is not None and tau is not None and prev[0] < tau[0] \
+                    and not sc["config"].get("cache", True):
+                pts.append({"sid": sid, "req": n, "phase": "reply", "kind": "bad_reply",
+                            "func": "get_data", "value": {"what": "stale_time_reused_dict"}})
+            if tau is not None:
+                last_get[sid] = tau
     return pts
 
 
